@@ -21,6 +21,8 @@ type Check struct {
 	NoBubble   bool
 	// Custom replaces the generic explorer entirely (BFS / scheduler engines).
 	Custom func(t *testing.T, e *mc.Explorer) *mc.ShardResult
+	// PreReplay returns choice vectors that must be executed before replaying the given one.
+	PreReplay func(choices []int) [][]int
 	// ReplayCustom re-executes a violation found by a custom engine (returns true if it still fails).
 	ReplayCustom func(t *testing.T, v *mc.Violation) bool
 }
@@ -131,6 +133,11 @@ func TestReplay(t *testing.T) {
 	e.Shards = 1
 	if c.Bound != nil {
 		e.Bound = 1 << 30 // replay follows the recorded picks whatever the bound was
+	}
+	if c.PreReplay != nil {
+		for _, pre := range c.PreReplay(v.Choices) {
+			e.ReplayOnce(t, pre)
+		}
 	}
 	var first string
 	for i := 0; i < 5; i++ {
